@@ -138,7 +138,7 @@ class C15(Prop):
                 "NV.C15.save_tmp_format",
                 "NV.C15.mediated_sites", "NV.C15.inventory_covers_efuns", "NV.C15.efun_surface_modelled",
                 "NV.C15.ext_callees_classified", "NV.C15.fs_callees_cover", "NV.C15.path_function_literals",
-                "NV.C15.efun_libc_table", "NV.C15.binary_model_satisfies_spec", "NV.C15.history_satisfies_spec", "NV.C15.nested_ok", "NV.C15.segOk_askEv", "NV.C15.static_bufs_classified", "NV.C15.inc_list_stores_guarded", "NV.C15.judge_il_model",
+                "NV.C15.efun_libc_table", "NV.C15.binary_model_satisfies_spec", "NV.C15.history_satisfies_spec", "NV.C15.nested_ok", "NV.C15.segOk_askEv", "NV.C15.static_bufs_classified", "NV.C15.inc_list_stores_guarded", "NV.C15.nest_single_ok", "NV.C15.judge_il_model",
                 "NV.C15.include_path_confined_any_config",
                 "NV.C15.buffer_sizes", "NV.C15.buffer_guards_present", "NV.C15.getdir_path_not_truncated",
                 "NV.C15.getdir_entry_fits", "NV.C15.getdir_long_path_refused", "NV.C15.ed_getfn_exact",
@@ -167,15 +167,19 @@ class C15(Prop):
                   "efun entry points (incl. get_dir/stat with flag -1, rename/link/cp into directories, save/restore_object, "
                   "the ed efun and its file commands): legal_path accepts exactly the relative paths without '#', without a "
                   "'..' component and with '.' only last; every path returned by check_valid_path, opened by load_object or "
-                  "#include is relative and free of '..'; the oracle accepts the model trace of every efun call and editing "
-                  "session (model_satisfies_spec: each libc call is preceded by an approval of the right kind of exactly "
+                  "#include is relative and free of '..'; the oracle accepts the model trace of every efun call, every HISTORY "
+                  "of calls and every editing session incl. the net-dead save, for every master policy including RE-ENTRANT "
+                  "masters whose valid_read / valid_write call file efuns themselves (nested calls have their own approvals: "
+                  "nested_ok) (model_satisfies_spec, history_satisfies_spec: each libc call is preceded by an approval of the right kind of exactly "
                   "that path or a listed derivation of it); no path is cut after its approval and every path copy fits its C "
                   "buffer (sizes and guards regenerated from the source); symbolic links created by link() have safe targets "
                   "and expansion through such links stays confined. Regenerated on every run and decided in Lean: the "
                   "inventory of every libc file call in lib/efuns, lib/lpc/object.c, src/simulate.c, lib/lpc/lex.c, "
                   "binaries.c (each path argument flows from check_valid_path / a PRECEDING legal_path / inc_open or is on a "
                   "justified allow-list), the libc function each function calls, every check_valid_path call's operation and "
-                  "write flag, the literals of 5 string functions, buffer sizes / guard expressions, and the list of external "
+                  "write flag, the literals of 5 string functions, buffer sizes / guard expressions (incl. inc_open's scan and "
+                  "fallback), every static character array of these files (none may carry a path across the master apply), "
+                  "every store into inc_list (guarded by a preceding legal_path), and the list of external "
                   "char*-taking callees (fail closed). The model is tied to the source by an exhaustive differential run of "
                   "the real functions over {a . / #}^<=7 (quick) / <=9 (thorough) and by system-style runs of every file "
                   "efun x path set (incl. lengths at the buffer boundaries) x master policy with libc interposed; the Lean "
@@ -195,15 +199,20 @@ class C15(Prop):
             "include normaliser (3 including files) + seeded random long paths, efun calls, editing sessions and object "
             "names; one batch case carries up to 4096 strings; master policies: deny, allow, echo, fixed (legal / illegal / "
             "absolute / empty / longer than the buffers), raise, raiseon, odd return types, read-only, write-only, per-path "
-            "read-only, and a master without valid_read/valid_write; every branch of the efun models is hit (evidence "
+            "read-only, RE-ENTRANT masters (valid_read / valid_write call read_file / file_size / tail / write_file on another path, "
+            "then allow / deny / rewrite / raise ...), and a master without valid_read/valid_write; editing sessions incl. the "
+            "net-dead save (D:name); every branch of the efun models is hit (evidence "
             "histogram.branches); a case is non-trivial when its trace has >= 2 lines; distinct = distinct canonical trace")
     not_covered = ["symbolic links are not FOLLOWED in a run (link() targets are judged; symlinks_confined is the theorem); "
                    "links placed in the mudlib by the administrator are outside the statement",
                    "SaveBinaryDir / #pragma save_binary (binaries.c): observed (unsafe paths, binary exists) but its call "
                    "sequence is not modelled and not judged for mediation (no master consultation exists there)",
-                   "do_move's EXDEV fallback (copy + unlink) and save_ed_buffer (net-dead editor) are inventoried, not executed",
+                   "do_move's EXDEV fallback (copy + unlink) is inventoried, not executed",
+                   "re-entrant masters: the nested call is one of read_file / file_size / tail / write_file, one level deep "
+                   "(the master asked by its own call answers 1); nested get_dir / rename / ed are not generated",
+                   "the valid_link consultation of link() is compared (order, arguments) but not judged",
                    "Windows branches (':' test of legal_path, O_TEXT, FindFirstFile) are not compiled here",
-                   "handle_include's buf[1024] / macro includes (C02) and log file names (lib/logger, configuration) are not "
+                   "handle_include's buf[1024] / include depth (C02) and log file names (lib/logger, configuration) are not "
                    "part of this check",
                    "listing the mudlib ROOT with flag -1 is compared only for the fixture's entries (the root holds the "
                    "framework's own files)"]
